@@ -36,6 +36,7 @@ MIN_REACH = {
     "identical_resows_accepted": {"quick": 5, "thorough": 20},
     "resows_after_a_cleaning_reap": {"quick": 20, "thorough": 50},
     "resows_of_farmer_crops": {"quick": 8, "thorough": 25},
+    "farmers_holding_a_name_as_constant_and_resource": {"quick": 12, "thorough": 150},
     "resows_after_the_farmer_changed_what_it_provides": {"quick": 5, "thorough": 20},
 }
 TIME_BUDGET = {"quick": 300, "thorough": 3000}
@@ -101,13 +102,29 @@ def cases(ctx):
         n = gens.n_settings(w["combos"], w["cases"])
         c = {"w": w, "batchsize": None, "num_batches": None, "where": rng.choice(["ctor", "sow"]),
              "shuffle": rng.choice([False, True, rng.randint(2, 9999)]), "shuffle_where": rng.choice(["ctor", "sow"]),
-             "farmer": rng.random() < 0.3}
+             "farmer": rng.random() < 0.3, "farmer_dup": rng.random() < 0.5}
         r = rng.random()
         if r < 0.45:
             c["batchsize"] = rng.randint(1, n + 1)
         elif r < 0.9:
             c["num_batches"] = rng.randint(1, n + 2)
         yield c
+
+
+def _direct_run_extras(farmer, expect):
+    """What a DIRECT run of this farmer passes on top of the swept arguments: recorded from a real run_combos call on a
+    recording stand-in function (so the expectation for the sown settings is the library's own direct behaviour)."""
+    import xyzpy
+    seen = []
+
+    def rec(**kw):
+        seen.append(dict(kw))
+        return 0.0
+    r = xyzpy.Runner(rec, var_names="out", constants=dict(farmer._constants), resources=dict(farmer._resources))
+    with quiet():
+        r.run_combos({"zz_probe_arg": [0]}, verbosity=0)
+    got = {k: v for k, v in seen[0].items() if k != "zz_probe_arg"}
+    return got if got else expect
 
 
 class _Seen(object):
@@ -264,9 +281,14 @@ def run_case(ctx, case):
     farmer = None
     farmer_consts = {}
     if case.get("farmer"):
-        farmer_consts = {"fc": 7, "res_r": "r0"}
+        fc, fr = {"fc": 7}, {"res_r": "r0"}
+        if case.get("farmer_dup"):
+            # the same name held both as a constant and as a resource of the farmer: a direct run passes the constant
+            fc, fr = {"fc": 7, "both": 3}, {"res_r": "r0", "both": -1}
+            ctx.count("farmers_holding_a_name_as_constant_and_resource")
         farmer = xyzpy.Runner(fn, var_names=None if w["kind"].startswith(("data", "dict")) else "out",
-                              constants={"fc": 7}, resources={"res_r": "r0"})
+                              constants=fc, resources=fr)
+        farmer_consts = _direct_run_extras(farmer, {**fr, **fc})
     ctor = {}
     sowkw = {}
     target = ctor if case["where"] == "ctor" else sowkw
